@@ -148,6 +148,7 @@ func runC17(e *Env) error {
 	c17AlterFlags(e, viol, &mu)
 	c17Down(e, pool, viol, &mu)
 	c17Graphs(e, viol, &mu)
+	c17PGQualified(e, viol, &mu)
 	return nil
 }
 
